@@ -231,3 +231,7 @@ func H09_suffix() {
 	sv.Reach("lexed")
 	checkTokens(ops, src, toks)
 }
+
+// AnyInput: n positions, each a symbolic ASCII byte or one of the concrete
+// non-ASCII runes (exported for the totality harnesses of the root package).
+func AnyInput(n int) string { return anyInput(n) }
